@@ -165,3 +165,13 @@ Theorem umist_example :
 ")) with Some (inr d) => Some d | _ => None end) = Some (["C"; "CH"], ["C2"; "H"], Some 100%Z).
 Proof. vm_compute. repeat split; reflexivity. Qed.
 Print Assumptions umist_example.
+
+(* tie to the current /repo (read from the source with ast on every run): the fixed-column layouts the KIDA and Leeds readers
+   slice a line with are the column bounds the model's decoders use (reactants 0..34, products 34..90, tail from 90; the Leeds
+   fields idx / reac / prod / a / b / c / lt / ht / type end at 5 35 85 93 102 112 117 122 125) *)
+Theorem live_layouts :
+  (kida_rlen, kida_rlen + kida_plen) = (34, 90) /\
+  leeds_labels = ["idx"; "reac"; "prod"; "a"; "b"; "c"; "lt"; "ht"; "type"] /\
+  snd (fold_left (fun (acc : nat * list nat) w => (fst acc + w, (snd acc ++ [fst acc + w])%list)) leeds_widths (0, @nil nat)) = [5; 35; 85; 93; 102; 112; 117; 122; 125].
+Proof. repeat split; reflexivity. Qed.
+Print Assumptions live_layouts.
